@@ -180,9 +180,17 @@ static size_t _GD_DoLinterpOut(DIRFILE *restrict D, gd_entry_t *restrict E,
     return 0;
   }
 
-  for (i = 0; i < E->e->u.linterp.table_len; ++i) {
-    tmp_lut[i].x = E->e->u.linterp.lut[i].y.r;
-    tmp_lut[i].y.r = E->e->u.linterp.lut[i].x;
+  /* the table is monotonic in y here; _GD_LinterpData needs rising abscissae,
+   * so the inverse of a table with falling y is stored back to front */
+  {
+    const int len = E->e->u.linterp.table_len;
+    const int rev = (E->e->u.linterp.lut[len - 1].y.r <
+        E->e->u.linterp.lut[0].y.r);
+    for (i = 0; i < len; ++i) {
+      const int j = rev ? len - 1 - i : i;
+      tmp_lut[j].x = E->e->u.linterp.lut[i].y.r;
+      tmp_lut[j].y.r = E->e->u.linterp.lut[i].x;
+    }
   }
 
   _GD_LinterpData(D, tmpbuf, GD_FLOAT64, 0, tmpbuf, num_samp, tmp_lut,
